@@ -72,6 +72,58 @@ CLAIMED["C18"] = dict(
           "differential (not applicable) and is not claimed."),
 )
 
+CLAIMED["C07"] = dict(
+    text=("Bounded model checking of the scanner by per-routine (assume-guarantee) contracts from an ARBITRARY cursor: every helper and scanning "
+          "routine (skip_whitespace, skip_comment, read_word, try_consume_word, scan_punctuation, scan_number, scan_identifier_or_keyword, "
+          "scan_string) and the next_token dispatcher keep the cursor inside the text and on a character boundary, make progress, and every "
+          "diagnostic/label span they emit is inside the text, ordered and on boundaries; the building blocks of the diagnostic renderer "
+          "(line/column computation, tab expansion) are total for every boundary position; one inductive step of the local-range indexing "
+          "contract the analyses rely on. Front end = scanner + renderer building blocks + that contract; parser and resolver totality are argued, not checked."),
+    ref="DESIGN.md 3 (C07)",
+    note=("Trusted: Kani/CBMC/SAT; texts of exactly N <= 3..4 bytes over ASCII + 2-byte UTF-8; recursion in scan_number and the routines under the "
+          "dispatcher are cut by contract stubs whose guarantees are the other obligations; emit_error replaced by a span-checking stub; "
+          "memchr2 scalar stub; ArenaString container model. render_diagnostic as a whole, the parser and the resolver do not fit (stated)."),
+)
+CLAIMED["C10"] = dict(
+    text=("Bounded relational model checking of the scanner: started before any separator (whitespace run, # comment ended by LF/CR/CRLF) the "
+          "dispatcher returns the same token, span, cursor and diagnostics as started after it; scan_number / scan_identifier_or_keyword / "
+          "scan_string are translation invariant; the multi-word keywords are recognised with any whitespace run between their words and roll "
+          "back to the same cursor otherwise. Together these give identical token streams for two layouts of one token sequence (the induction "
+          "over tokens and the parser half are arguments)."),
+    ref="DESIGN.md 3 (C10)",
+    note=("Trusted: Kani/CBMC/SAT; 10 separator shapes x suffix <= 2 (3 thorough) symbolic bytes; shifted texts <= 2 (3) bytes; deterministic "
+          "models of the scanning routines in the separator obligation; parser not executed (token-only interface checked syntactically)."),
+)
+CLAIMED["C09"] = dict(
+    text=("Bounded model checking of the real resolver routines, one rule on one node with the nesting context symbolic: the operator/condition/"
+          "index type table for ALL 9x9 static type combinations (rejected iff statically wrong, category named), comot/next iff inside a loop, "
+          "return iff inside a function, loop bodies one level deeper, function bodies entered with loop depth 0 and their own function context, "
+          "use of / assignment to / {placeholder} of a name that is not in scope, calls of functions not in scope, builtin arity."),
+    ref="DESIGN.md 3 (C09)",
+    note=("Trusted: Kani/CBMC/SAT; recursive calls replaced by contract stubs (infer_expr_type returns ANY static type; check_block records its "
+          "context); composition over whole programs is argued; member-call tables, duplicate/reserved-name rules of predeclare_block_functions "
+          "(HashSet/SipHash) and parser-enforced rules are outside the claim."),
+)
+CLAIMED["C04"] = dict(
+    text=("Bounded model checking of the resolver's symbol-table lookups for every table content within the shape: a variable name resolves to "
+          "the nearest enclosing declaration (innermost scope, most recent entry) or to nothing; a function name resolves to the innermost "
+          "enclosing definition or is not visible. This is the lexical-lookup core of the property; scope maintenance and the runtime's "
+          "id-directed lookups are argued, not checked (they do not fit, see level_note)."),
+    ref="DESIGN.md 3 (C04)",
+    note=("Trusted: Kani/CBMC/SAT; scope stacks <= 3 scopes x 2 entries over names {a,b}/{f,g}, query name concrete per instance; the routines "
+          "that maintain the tables (check_block, check_function_body with parameters, Assign) and the runtime environment lookups write through "
+          "pointers read back from arena memory and ran out of memory in every formulation tried."),
+)
+CLAIMED["C15"] = dict(
+    text=("Bounded model checking of the command builder and validation for ALL fourteen cap values: validate accepts exactly the commands within "
+          "every documented limit (program, counts, per-argument, totals, cwd, env key/value incl. '=' and NUL, stdin, timeout/default), exact at "
+          "every boundary, and the accepted spec is byte-for-byte and count-for-count what was configured (no splitting, reordering or dropping); "
+          "set_env keeps one pair per key with the last value; clone_into copies field for field."),
+    ref="DESIGN.md 3 (C15)",
+    note=("Trusted: Kani/CBMC/SAT; <= 2 args, <= 2 env pairs, strings <= 2 bytes (3 for validate_named_text); std::process::Command's verbatim "
+          "argv/env/cwd hand-over and the evaluator-side gate/argument evaluation (Runtime::eval_process_command_call*) are outside the claim."),
+)
+
 NOT_APPLICABLE = {
     "C01": "tree-walk evaluator (Runtime::eval_expr/exec_stmt) cannot be symbolically executed by Kani/CBMC within this machine's memory (7 probe variants, DESIGN.md 4); every clause of the property is evaluator behaviour",
     "C03": "differential between two evaluator runs fed by the whole analysis pipeline on symbolic programs; neither half can be encoded (DESIGN.md 4)",
@@ -81,8 +133,10 @@ NOT_APPLICABLE = {
     "C14": "process-level observation (stdout/exit status) of a binary and sequences of whole-program runs through clap, file I/O and the evaluator; the encodable ingredient (scratch arena flip/flop and re-initialisation) is decided under C11",
 }
 
-PENDING = {pid: "check not built yet in this session (planned, see DESIGN.md 3); not claimed until it is"
-           for pid in ["C02", "C04", "C07", "C09", "C10", "C15"]}
+PENDING = {"C02": ("the reclamation points (overwrite_slot, relocate_return_value, pop_scope followed by a pool allocation) ran out of memory "
+                   "in all three pool models tried: releasing and re-taking a slot makes the recycled slot address symbolic; only "
+                   "ArenaCow::promote fits, and a claim on that sliver would not be the property (DESIGN.md A.1); the whole-program "
+                   "differential needs the evaluator, which cannot be encoded (DESIGN.md 4)")}
 
 
 def build():
